@@ -1,0 +1,175 @@
+//! Hooks for an out-of-crate verification harness. Compiled only with the cargo feature `verif`
+//! (off by default); adds no behaviour to the component.
+//!
+//! Exposes a step-driven replica: the ChonkyBFT `StateMachine` is built from whatever replica state the
+//! supplied `EngineManager` holds, and then handles one message / one timer expiry at a time.
+use std::sync::Arc;
+
+use zksync_concurrency::{ctx, sync};
+use zksync_consensus_roles::validator;
+
+use crate::{v2_chonky_bft, Config, FromNetworkMessage, ToNetworkMessage};
+
+/// Read-only view of the replica state.
+#[derive(Debug, Clone)]
+pub struct Snapshot {
+    /// Current view.
+    pub view: validator::ViewNumber,
+    /// Current phase.
+    pub phase: validator::v2::Phase,
+    /// Last commit vote signed.
+    pub high_vote: Option<validator::v2::ReplicaCommit>,
+    /// Highest commit certificate held.
+    pub high_commit_qc: Option<validator::v2::CommitQC>,
+    /// Highest timeout certificate held.
+    pub high_timeout_qc: Option<validator::v2::TimeoutQC>,
+    /// Keys of the proposal cache.
+    pub proposals: Vec<(validator::BlockNumber, validator::PayloadHash)>,
+    /// Size of `commit_views_cache`.
+    pub commit_views: usize,
+    /// Number of views / total number of certificates in `commit_qcs_cache`.
+    pub commit_qcs: (usize, usize),
+    /// Size of `timeout_views_cache`.
+    pub timeout_views: usize,
+    /// Size of `timeout_qcs_cache`.
+    pub timeout_qcs: usize,
+}
+
+/// Step-driven replica.
+#[derive(Debug)]
+pub struct Replica {
+    sm: v2_chonky_bft::StateMachine,
+    proposer: sync::watch::Receiver<Option<validator::v2::ProposalJustification>>,
+    _inbound: sync::prunable_mpsc::Sender<FromNetworkMessage>,
+}
+
+impl Replica {
+    /// Builds the state machine exactly as `Config::run` does (restoring the backup held by the
+    /// engine manager), without starting its message loop. Outbound messages go to `outbound`.
+    pub async fn start(
+        ctx: &ctx::Ctx,
+        config: Config,
+        outbound: ctx::channel::UnboundedSender<ToNetworkMessage>,
+    ) -> ctx::Result<Self> {
+        let (send, recv) = crate::create_input_channel();
+        let (proposer_sender, proposer) = sync::watch::channel(None);
+        let sm = v2_chonky_bft::StateMachine::start(
+            ctx,
+            Arc::new(config),
+            outbound,
+            recv,
+            proposer_sender,
+        )
+        .await?;
+        Ok(Self {
+            sm,
+            proposer,
+            _inbound: send,
+        })
+    }
+
+    /// Dispatches one message to its handler, as the `run` loop does.
+    /// `Ok(())` = accepted, `Err(class)` = rejected with the given error variant name;
+    /// `Err("Internal: ..")` for internal errors (which stop the real loop).
+    pub async fn handle(
+        &mut self,
+        ctx: &ctx::Ctx,
+        msg: validator::Signed<validator::ConsensusMsg>,
+    ) -> Result<(), String> {
+        fn class<E: std::fmt::Debug>(e: E) -> String {
+            let s = format!("{e:?}");
+            let end = s
+                .find(|c: char| !c.is_alphanumeric() && c != '_')
+                .unwrap_or(s.len());
+            if s.starts_with("Internal") {
+                s
+            } else {
+                s[..end].to_string()
+            }
+        }
+        #[allow(irrefutable_let_patterns)]
+        let validator::ConsensusMsg::V2(m) = &msg.msg
+        else {
+            return Err("OtherVersion".into());
+        };
+        match m {
+            validator::v2::ChonkyMsg::LeaderProposal(_) => self
+                .sm
+                .on_proposal(ctx, msg.cast().unwrap())
+                .await
+                .map_err(class),
+            validator::v2::ChonkyMsg::ReplicaCommit(_) => self
+                .sm
+                .on_commit(ctx, msg.cast().unwrap())
+                .await
+                .map_err(class),
+            validator::v2::ChonkyMsg::ReplicaTimeout(_) => self
+                .sm
+                .on_timeout(ctx, msg.cast().unwrap())
+                .await
+                .map_err(class),
+            validator::v2::ChonkyMsg::ReplicaNewView(_) => self
+                .sm
+                .on_new_view(ctx, msg.cast().unwrap())
+                .await
+                .map_err(class),
+        }
+    }
+
+    /// The view timer fired.
+    pub async fn tick(&mut self, ctx: &ctx::Ctx) -> ctx::Result<()> {
+        self.sm.start_timeout(ctx).await
+    }
+
+    /// Justification handed to the proposer since the last call, if any.
+    pub fn take_notification(&mut self) -> Option<validator::v2::ProposalJustification> {
+        if self.proposer.has_changed().unwrap_or(false) {
+            self.proposer.borrow_and_update().clone()
+        } else {
+            None
+        }
+    }
+
+    /// Builds the proposal the proposer task would broadcast for `justification`.
+    pub async fn create_proposal(
+        &self,
+        ctx: &ctx::Ctx,
+        justification: validator::v2::ProposalJustification,
+    ) -> ctx::Result<validator::v2::LeaderProposal> {
+        v2_chonky_bft::proposer::create_proposal(ctx, self.sm.config.clone(), justification).await
+    }
+
+    /// Current state.
+    pub fn snapshot(&self) -> Snapshot {
+        let sm = &self.sm;
+        let mut proposals = vec![];
+        for (n, m) in &sm.block_proposal_cache {
+            let mut hs: Vec<_> = m.keys().cloned().collect();
+            hs.sort();
+            proposals.extend(hs.into_iter().map(|h| (*n, h)));
+        }
+        Snapshot {
+            view: sm.view_number,
+            phase: sm.phase,
+            high_vote: sm.high_vote.clone(),
+            high_commit_qc: sm.high_commit_qc.clone(),
+            high_timeout_qc: sm.high_timeout_qc.clone(),
+            proposals,
+            commit_views: sm.commit_views_cache.len(),
+            commit_qcs: (
+                sm.commit_qcs_cache.len(),
+                sm.commit_qcs_cache.values().map(|m| m.len()).sum(),
+            ),
+            timeout_views: sm.timeout_views_cache.len(),
+            timeout_qcs: sm.timeout_qcs_cache.len(),
+        }
+    }
+}
+
+/// The selection function and filter predicate of the replica's input queue.
+pub fn input_channel() -> (
+    sync::prunable_mpsc::Sender<FromNetworkMessage>,
+    sync::prunable_mpsc::Receiver<FromNetworkMessage>,
+) {
+    crate::create_input_channel()
+}
